@@ -243,3 +243,81 @@ func init() {
 		}
 	}
 }
+
+// conn pipeline pat=<R|A|H...>: several messages arrive in ONE segment (a peer that pipelines):
+// R a request the handler answers, A an answer (nothing is written for it), H only the first
+// bytes of a further request (its rest never arrives). Every answer the handler was told is
+// written has reached the transport once the reader is waiting for input again (C07).
+//
+//   conn pipeline pat=RRA => answers=<reached the transport>/<written by handlers>
+func execConnPipeline(toks []string) string {
+	pat, _ := kvGet(toks, "pat")
+	var mu sync.Mutex
+	written := 0
+	h := diam.HandlerFunc(func(c diam.Conn, m *diam.Message) {
+		if m.Header.CommandFlags&diam.RequestFlag == 0 {
+			return
+		}
+		a := m.Answer(2001)
+		a.NewAVP(264, 0x40, 0, datatype.DiameterIdentity("srv"))
+		if _, err := a.WriteTo(c); err == nil {
+			mu.Lock()
+			written++
+			mu.Unlock()
+		}
+	})
+	mc := newMemConn()
+	if _, err := diam.NewConn(mc, "mem", h, dict.Default); err != nil {
+		return "err"
+	}
+	var seg []byte
+	for i, ch := range pat {
+		id := uint32(100 + i)
+		switch ch {
+		case 'R':
+			seg = append(seg, simpleMsg(280, 0x80, 0, id, id, diam.NewAVP(264, 0x40, 0, datatype.DiameterIdentity("p")))...)
+		case 'A':
+			seg = append(seg, simpleMsg(280, 0, 0, id, id, diam.NewAVP(268, 0x40, 0, datatype.Unsigned32(2001)))...)
+		case 'H':
+			full := simpleMsg(280, 0x80, 0, id, id, diam.NewAVP(264, 0x40, 0, datatype.DiameterIdentity("partial")))
+			seg = append(seg, full[:24]...)
+		}
+	}
+	mc.deliver(seg)
+	waitFor(mc.readerParked, 2*time.Second)
+	time.Sleep(2 * time.Millisecond)
+	log := mc.allWritten()
+	reached := 0
+	for o := 0; o+20 <= len(log); {
+		l := int(log[o+1])<<16 | int(log[o+2])<<8 | int(log[o+3])
+		if l < 20 || o+l > len(log) {
+			break
+		}
+		reached++
+		o += l
+	}
+	mu.Lock()
+	w := written
+	mu.Unlock()
+	mc.Close()
+	return fmt.Sprintf("answers=%d/%d", reached, w)
+}
+
+func init() {
+	executors["conn pipeline"] = execConnPipeline
+	connGens["pipeline"] = func(r *RNG, n int, op string, emit func(string)) {
+		for _, p := range []string{"R", "RR", "RA", "RRA", "AR", "RAR", "RH", "RRH", "ARAH", "RRRRA"} {
+			emit("conn pipeline pat=" + p)
+		}
+		for i := 0; i < n; i++ {
+			var b []byte
+			for j, k := 0, 1+r.Intn(7); j < k; j++ {
+				b = append(b, "RRA"[r.Intn(3)])
+			}
+			if r.Chance(30) {
+				b = append(b, 'H')
+			}
+			emit("conn pipeline pat=" + string(b))
+		}
+	}
+}
